@@ -185,6 +185,54 @@ theorem absolute_spec (p : Bytes) :
       (decide (p.length > 2) && p[1]? == some 58 && (match p[2]? with | some c => isSep c | none => false))) := by
   rw [(denote_valid p).2]; rfl
 
+/-- What the POSIX build does with `\`: the path functions of File.cpp treat it as a separator on every
+    platform (there is no `#ifdef`), so a path written with backslashes denotes the same as the one written
+    with slashes … -/
+theorem backslash_is_separator (p : Bytes) :
+    denote (p.map (fun c => if c = 92 then 47 else c)) = denote p := by
+  have hsplit : ∀ q : Bytes, splitSep (q.map (fun c => if c = 92 then 47 else c)) = splitSep q := by
+    intro q
+    induction q with
+    | nil => rfl
+    | cons c cs ih =>
+      simp only [List.map_cons, splitSep, ih]
+      by_cases h : c = 92
+      · subst h; simp [isSep]
+      · simp only [h, if_false]
+  unfold denote chunks
+  rw [hsplit]
+  cases p with
+  | nil => rfl
+  | cons c cs =>
+    by_cases h : c = 92
+    · subst h; rfl
+    · simp only [List.map_cons, h, if_false]; rfl
+
+/-- … and simplifyPath never returns a backslash (it rewrites every separator to `/`). -/
+theorem simplify_no_backslash (p : Bytes) : 92 ∉ simplifyPath p := by
+  rw [simplifyPath_eq_render, render_eq_joinS _ (denote_valid p).1]
+  have hok := outItems_ok (denote p) (denote_valid p).1
+  have hj : ∀ (B : List Bytes), (∀ c ∈ B, ItemOk c) → 92 ∉ joinS B := by
+    intro B
+    induction B with
+    | nil => intro _; simp [joinS]
+    | cons c rest ih =>
+      intro h
+      have hc : 92 ∉ c := fun hm => by
+        have := (h c (List.mem_cons_self)).2 92 hm
+        simp [isSep] at this
+      have hr := ih (fun x hx => h x (List.mem_cons_of_mem _ hx))
+      cases rest with
+      | nil => simpa [joinS] using hc
+      | cons d r =>
+        simp only [joinS, List.mem_append, List.mem_cons, not_or] at hr ⊢
+        exact ⟨hc, by decide, hr⟩
+  intro hm
+  simp only [List.mem_append] at hm
+  rcases hm with hm | hm
+  · cases (denote p).abs <;> simp [pre] at hm
+  · exact hj _ hok hm
+
 /-! non-vacuity / sanity -/
 example : simplifyPath [47, 97, 47, 46, 46] = [47] := by decide
 example : RelExists [97, 47, 98] [97] ∧ getRelativePath [97, 47, 98] [97] = [46, 46] := by decide
